@@ -118,3 +118,24 @@ Proof.
   unfold probs_total_one. intros H. apply (peqb_sound hz rho G) in H.
   rewrite (norms_total_sound hz rho G) in H. rewrite H. apply (peval_pone rho).
 Qed.
+
+(* ---- Kraus completeness ---- *)
+Definition c_madd := @madd C Cplus.
+Definition c_zero_mat (d : nat) : cmat := map (fun _ => map (fun _ => RtoC 0) (seq 0 d)) (seq 0 d).
+Definition c_kraus_sum (d : nat) (Ks : list cmat) : cmat :=
+  fold_right (fun K acc => c_madd (c_mmul (c_madj K) K) acc) (c_zero_mat d) Ks.
+Lemma kraus_sum_sound hz rho (G : good_env hz rho) d Ks :
+  map (map (peval rho)) (kraus_sum hz d Ks) = c_kraus_sum d (map (map (map (peval rho))) Ks).
+Proof.
+  induction Ks as [|K Ks IH]; cbn [kraus_sum c_kraus_sum fold_right map].
+  - unfold c_zero_mat. rewrite map_map. apply map_ext. intros r. rewrite map_map. apply map_ext. intros c. reflexivity.
+  - fold (kraus_sum hz d Ks). unfold p_madd.
+    rewrite (madd_hom poly C (nadd hz) Cplus (peval rho) (peval_nadd hz rho G)).
+    rewrite (ev_mmul hz rho G), (ev_madj hz rho G), IH. reflexivity.
+Qed.
+Theorem kraus_complete_sound hz rho (G : good_env hz rho) d Ks : kraus_complete hz d Ks = true ->
+  c_kraus_sum d (map (map (map (peval rho))) Ks) = c_mident d.
+Proof.
+  unfold kraus_complete. intros H. apply (meqb_sound hz rho G) in H.
+  rewrite (kraus_sum_sound hz rho G), ev_mident in H. exact H.
+Qed.
